@@ -1164,7 +1164,12 @@ def evaluate__xml_to_json(self: XPathFunction, context: ta.ContextType = None) \
 
             elif child.tag == BOOLEAN_TAG:
                 check_attributes('key')
-                if BooleanProxy(''.join(etree_iter_strings(child))):
+                try:
+                    boolean_value = BooleanProxy(''.join(etree_iter_strings(child)))
+                except ValueError as err:
+                    raise self.error('FOJS0006', err) from None
+
+                if boolean_value:
                     chunks.append('true')
                 else:
                     chunks.append('false')
@@ -1429,7 +1434,13 @@ def evaluate__json_to_xml(self: XPathFunction, context: ta.ContextType = None) \
         root.set(XML_BASE, self.parser.base_uri)
 
     if validate:
-        validate_json_to_xml(document.getroot())
+        try:
+            validate_json_to_xml(document.getroot())
+        except ElementPathError:
+            raise
+        except ValueError as err:
+            # a validation error, e.g. for a number out of the range of xs:double
+            raise self.error('FOJS0001', str(err).strip().split('\n')[0]) from None
 
     namespaces = {'j': XPATH_FUNCTIONS_NAMESPACE}
     return cast(DocumentNode, get_node_tree(document, namespaces))
